@@ -96,6 +96,9 @@ func genSysHistory(rng *proto.Rng) sysIn {
 		}
 		if run.Kind == "apply" {
 			n := 1 + rng.Intn(5)
+			if rng.Chance(1, 12) {
+				n = 0 // an empty apply set: everything tracked is pruned, the inventory is written empty
+			}
 			for k := 0; k < n; k++ {
 				o := proto.Pick(rng, sysCatalogue[1:])
 				if rng.Chance(1, 12) {
@@ -155,6 +158,10 @@ func genSysHistory(rng *proto.Rng) sysIn {
 				if b == "finalizer" {
 					needTimeout = true
 				}
+			} else if r > 0 && in.Runs[r-1].Del[k] == "finalizer" && rng.Chance(2, 3) {
+				// an object stuck in deletion is usually still stuck when the next run comes
+				run.Del[k] = "finalizer"
+				needTimeout = true
 			}
 		}
 		run.Opts.Timeout = needTimeout || rng.Chance(1, 6)
@@ -245,6 +252,19 @@ func sysHandWritten() []sysIn {
 		{Pre: pre, Runs: []sysRun{{Kind: "apply", Objs: []sysObj{soA, soM}},
 			{Kind: "apply", Objs: []sysObj{{ID: soM.ID, MutFrom: soM.MutFrom, MutExt: true}}, Opts: sysOpts{SkipInvalid: true}},
 			{Kind: "destroy"}}},
+		// an object whose deletion hangs on a finalizer is still terminating when the next runs are planned: it stays tracked
+		{Pre: pre, Runs: []sysRun{{Kind: "apply", Objs: []sysObj{soA, soD}},
+			{Kind: "apply", Objs: []sysObj{soA}, Del: map[string]string{idKey(soD.ID): "finalizer"}, Opts: sysOpts{Timeout: true}},
+			{Kind: "apply", Objs: []sysObj{soA}, Del: map[string]string{idKey(soD.ID): "finalizer"}, Opts: sysOpts{Timeout: true}},
+			{Kind: "destroy", Del: map[string]string{idKey(soD.ID): "finalizer"}, Opts: sysOpts{Timeout: true}}}},
+		{Pre: pre, Runs: []sysRun{{Kind: "apply", Objs: []sysObj{soA, soD}},
+			{Kind: "destroy", Del: map[string]string{idKey(soD.ID): "finalizer"}, Opts: sysOpts{Timeout: true}},
+			{Kind: "destroy", Del: map[string]string{idKey(soD.ID): "finalizer"}, Opts: sysOpts{Timeout: true}},
+			{Kind: "apply", Objs: []sysObj{soA}, Del: map[string]string{idKey(soD.ID): "finalizer-gone"}, Opts: sysOpts{Timeout: true}}}},
+		// boundary: empty apply sets (nothing tracked yet; everything tracked pruned), destroy without an inventory
+		{Pre: pre, Runs: []sysRun{{Kind: "apply", Objs: []sysObj{}}, {Kind: "apply", Objs: []sysObj{soA}}, {Kind: "apply", Objs: []sysObj{}}, {Kind: "destroy"}}},
+		{Pre: pre, Runs: []sysRun{{Kind: "destroy"}}},
+		{Pre: pre, Runs: []sysRun{{Kind: "apply", Objs: []sysObj{}, Opts: sysOpts{Dry: 1}}, {Kind: "apply", Objs: []sysObj{}, Opts: sysOpts{StatusAll: true}}}},
 	}
 }
 
